@@ -596,6 +596,9 @@ func GenFile(o Options) *rapid.Generator[*File] {
 				f.Extras = append(f.Extras, x)
 			}
 		}
+		if o.Extras && rapid.IntRange(0, 4).Draw(t, "namedImports") == 0 {
+			f.NamedImports = rapid.SampledFrom([][]string{{"tt"}, {"rt"}, {"str"}, {"tt", "str"}, {"ht", "rt"}, {"tt", "rt"}}).Draw(t, "imports")
+		}
 		Normalize(f)
 		return f
 	})
